@@ -466,6 +466,28 @@ func (m *Manager) TerminateSession(ctx context.Context, sessionID string, reason
 	session.State = StateTerminating
 	session.StateReason = string(reason)
 	session.UpdatedAt = time.Now()
+
+	// The session leaves the table and its indexes in the critical section
+	// that found it: a second termination of the same session (operator,
+	// RADIUS disconnect and the timeout sweep can coincide) finds nothing and
+	// releases nothing a second time.
+	if session.MAC != nil {
+		delete(m.byMAC, session.MAC.String())
+	}
+	if session.IPv4 != nil {
+		delete(m.byIP, session.IPv4.String())
+	}
+	if session.IPv6 != nil {
+		delete(m.byIP, session.IPv6.String())
+	}
+
+	// Update stats
+	m.stats.TotalBytesIn += int64(session.BytesIn)
+	m.stats.TotalBytesOut += int64(session.BytesOut)
+	m.stats.TotalSessionsEnded++
+
+	// Remove session
+	delete(m.sessions, sessionID)
 	m.mu.Unlock()
 
 	// Release IP addresses
@@ -485,27 +507,6 @@ func (m *Manager) TerminateSession(ctx context.Context, sessionID string, reason
 			)
 		}
 	}
-
-	m.mu.Lock()
-	// Remove from indexes
-	if session.MAC != nil {
-		delete(m.byMAC, session.MAC.String())
-	}
-	if session.IPv4 != nil {
-		delete(m.byIP, session.IPv4.String())
-	}
-	if session.IPv6 != nil {
-		delete(m.byIP, session.IPv6.String())
-	}
-
-	// Update stats
-	m.stats.TotalBytesIn += int64(session.BytesIn)
-	m.stats.TotalBytesOut += int64(session.BytesOut)
-	m.stats.TotalSessionsEnded++
-
-	// Remove session
-	delete(m.sessions, sessionID)
-	m.mu.Unlock()
 
 	m.emitEvent(&SessionEvent{
 		Type:      EventSessionTerminate,
